@@ -28,7 +28,7 @@ CONSTANTS NReqs,        \* set of request counts, subset of {1, 2}
           Budgets,      \* subset of {0, 99}: 0 = the socket accepts nothing until the environment makes it writable (then: everything)
           Errs,         \* subset of BOOLEAN: the handler of request 1 fails (its answer goes through send_error_response)
           HalfClosed, MaxT, KnownSigs,
-          DEV_KaRefire, DEV_HeadRefire, DEV_KaRearmsShutdown   \* the two timer defects repaired by fix: commits (FALSE = repaired code)
+          DEV_KaRefire, DEV_HeadRefire, DEV_KaRearmsShutdown, DEV_LingerTimerAfterFlush   \* the two timer defects repaired by fix: commits (FALSE = repaired code)
 TICK == 1000
 
 VARIABLES scn, wire, sock, rbuf, peerEof, signalled, now,
@@ -310,8 +310,10 @@ Tail_ ==
 Linger ==
   /\ pc = "linger"
   /\ IF wbuf # <<>> /\ Blocked
-     THEN \* poll_linger: the flush is pending
-          /\ reg' = reg \cup {"wr"} /\ Emit([ev |-> "WritePend", n |-> 1]) /\ UNCHANGED <<nresp, wbuf, obs, flags, woken, shutT, rbuf, sock>>
+     THEN \* poll_linger: the timer is armed first (DEV_LingerTimerAfterFlush: before that repair), then the flush is pending
+          /\ reg' = reg \cup {"wr"} /\ Emit([ev |-> "WritePend", n |-> 1])
+          /\ shutT' = (IF shutT >= 0 \/ scn.disc_ms = 0 \/ DEV_LingerTimerAfterFlush THEN shutT ELSE now + scn.disc_ms)
+          /\ UNCHANGED <<nresp, wbuf, obs, flags, woken, rbuf, sock>>
      ELSE /\ rs' = FlushAll(wbuf, rs, nresp) /\ nresp' = nresp + Len(wbuf) /\ wbuf' = <<>> /\ obs' = obs \o ObsOf(wbuf)
           /\ IF scn.disc_ms = 0 /\ shutT < 0
              THEN /\ flags' = (flags \ {"LINGER"}) \cup {"SHUTDOWN"} /\ woken' = TRUE /\ UNCHANGED <<shutT, rbuf, sock, reg>>
@@ -350,10 +352,8 @@ Spec == Init /\ [][Next]_vars
 (* ------------------------------- checked ------------------------------- *)
 RefAccepts == rs.tag = "ok" \/ rs.sig \in KnownSigs
 \* design-level form of the shutdown bound: with a disconnect timeout, a connection in SHUTDOWN or LINGER always has the timer armed
-\* (lingering starts its timer only once the closing response has been flushed: poll_linger returns while the flush is pending)
 ShutdownIsTimed ==
-  (pc = "idle" /\ ~woken /\ result = "run" /\ scn.disc_ms > 0
-   /\ ("SHUTDOWN" \in flags \/ ("LINGER" \in flags /\ wbuf = <<>>))) => shutT >= 0
+  (pc = "idle" /\ ~woken /\ result = "run" /\ scn.disc_ms > 0 /\ flags \cap {"SHUTDOWN", "LINGER"} # {}) => shutT >= 0
 \* a quiescent idle keep-alive connection has its keep-alive timer armed
 IdleIsTimed ==
   (pc = "idle" /\ ~woken /\ result = "run" /\ KaOn /\ st = "none" /\ "KEEP_ALIVE" \in flags /\ "FINISHED" \in flags
